@@ -12,7 +12,7 @@ import SoxrModel.Basic
 * `cr.c:dft_stage_init`: the filter-length rounding `k` (the only place where `phase_response == 50` is tested),
   `post_peak`, and the latency bookkeeping `preload = post_peak / L`, `at = post_peak % L`, `block_len`,
   `input_size`.  `dftStageInit` is that function with its floating-point sub-results (`nRaw`: Kaiser length
-  estimate; `dftLen`: `set_dft_length`) as parameters.
+  estimate; `dftLen`: `set_dft_length`'s answer, which the function then pads to `32·L` for power-of-two `L`) as parameters.
 
 `makeLpf` is the index structure of `filter.c:lsx_make_lpf` (which tap each loop iteration writes).
 
@@ -127,8 +127,18 @@ structure DftIn where
   nRaw : Nat := 1         -- Kaiser length estimate (floating point; opaque)
   tpLen : Nat := 1        -- result of `lsx_fir_to_phase` on the rounded length: new `num_taps` …
   tpPost : Nat := 0       -- … and `post_peak`   (ignored when `lin`)
-  dftLen : Nat := 1       -- `set_dft_length(num_taps, min, large)` (floating-point `log`; opaque)
+  dftLen : Nat := 1       -- what `set_dft_length(num_taps, min, large)` answers (floating-point `log`; opaque), BEFORE the padding loop
   deriving Repr, Inhabited, DecidableEq
+
+/-- `while (dft_length < 32 * L) dft_length <<= 1;` (fuelled; `32·L` iterations are more than the loop can take from any
+    `dft_length ≥ 1`, see `padDft_ge`) -/
+def padDft (L : Nat) : Nat → Nat → Nat
+  | 0, D => D
+  | fuel + 1, D => if D < 32 * L then padDft L fuel (2 * D) else D
+
+/-- `dft_length` after `if (lsx_is_power_of_2(L)) while (dft_length < 32 * L) dft_length <<= 1;`: a power-of-two up-sampling
+    stage keeps at least 32 points per forward transform (`dft_length / L`) -/
+def finalDftLen (L D : Nat) : Nat := if isPow2L L then padDft L (32 * L) D else D
 
 structure DftOut where
   k : Nat
@@ -152,11 +162,12 @@ def dftStageInit (i : DftIn) : DftOut :=
   let pp := if i.lin then n0 / 2 else i.tpPost
   let fdm := (i.M == 2 || i.M == 4) && i.fsLe1        -- `abs(3-M) == 1 && Fs <= 1`
   let clk := pp % i.L
-  { k := k, nDesign := n0, numTaps := n, postPeak := pp, dftLen := i.dftLen, L := i.L,
+  let D := finalDftLen i.L i.dftLen
+  { k := k, nDesign := n0, numTaps := n, postPeak := pp, dftLen := D, L := i.L,
     preload := pp / i.L, clk := clk,
     step := if fdm then -((i.M / 2 : Nat) : Int) else (i.M : Int),
-    blockLen := i.dftLen - (n - 1),
-    isz := (i.dftLen - clk + i.L - 1) / i.L }
+    blockLen := D - (n - 1),
+    isz := (D - clk + i.L - 1) / i.L }
 
 /-- The clause of the frequency-domain up-sampling path of `dft_stage_fn` (`lsx_is_power_of_2(L)`): it transforms
     `dft_length / L` input frames per block, reads `⌈(block_len - at)/L⌉` and ignores `at`; that is a correct
